@@ -12,6 +12,9 @@ LEAN_MODULES = ["GoaktVerif.Props.C43"]
 THEOREMS = [
     "GoaktVerif.C43.C43_holds",
     "GoaktVerif.C43.C43_window",
+    "GoaktVerif.C43.C43c_holds",
+    "GoaktVerif.C43c.step_ok",
+    "GoaktVerif.C43c.handle_ok",
     "GoaktVerif.C42.Inv.step",
     "GoaktVerif.C42.Inv.init",
     "GoaktVerif.C42.PPost.handle",
@@ -21,8 +24,8 @@ INPKG = ["actor/zz_verif_c42.go"]
 HARNESS = "c42"
 TIMEOUT = 900
 MANIFEST = {
-    "level_text": "Kernel-checked for the volatile, unchunked flow (C43_holds, C43_window): in every reachable state of the model of both controllers under any drop / duplicate / reorder / tick / speed schedule of any length, every SequencedMessage the producer controller sends has seq <= the highest requestUpToSeq the consumer controller has sent so far; producer demandUpTo and currentSeq never exceed it; len(buffer) <= window and requestUpToSeq <= confirmedSeq + window after every consumer handler. Same inductive invariant, model, monitor and step-by-step replay of the real handlers as C42.",
-    "level_note": "The theorems are about the unchunked model (Model/C42). The chunked path is modelled too (Model/C42c: storeChunks, chunk buffering, assembly, structural-violation failures) and tied by the same step-by-step replay plus a chunk-aware monitor, but not proved; there the differential found a violation of the demand clause (after a re-registration chunks were sent beyond every grant); it was repaired in /repo 78360fc (fixes/C43-register-demand.diff), the models follow the repaired code, the witness stays in the corpus and reverting the fix is seeded/C43-revert-register-demand. Durable queue and controller restart remain outside the model. Observation recorded in design/C43.md: the bound is protected twice (credit gating in allowNextRequest and the seq > demandUpTo test in emitSequenced); removing only the latter breaks the correspondence but no input violates the property.",
+    "level_text": "Kernel-checked for the volatile, unchunked flow (C43_holds, C43_window): in every reachable state of the model of both controllers under any drop / duplicate / reorder / tick / speed schedule of any length, every SequencedMessage the producer controller sends has seq <= the highest requestUpToSeq the consumer controller has sent so far; producer demandUpTo and currentSeq never exceed it; len(buffer) <= window and requestUpToSeq <= confirmedSeq + window after every consumer handler. Same inductive invariant, model, monitor and step-by-step replay of the real handlers as C42. The demand clause is ALSO proved on the chunk-aware model Model/C42c (C43c_holds: every SequencedMessage, whole or chunk, for every chunk size, frame-length sequence, window and script), which is tied to the code by the same replay on chunk-mode cases.",
+    "level_note": "The theorems are about the unchunked model (Model/C42). The chunked path is modelled too (Model/C42c: storeChunks, chunk buffering, assembly, structural-violation failures) and tied by the same step-by-step replay plus a chunk-aware monitor, the demand clause is proved there (C43c_holds), order and window are not; there the differential found a violation of the demand clause (after a re-registration chunks were sent beyond every grant); it was repaired in /repo 78360fc (fixes/C43-register-demand.diff), the models follow the repaired code, the witness stays in the corpus and reverting the fix is seeded/C43-revert-register-demand. Durable queue and controller restart remain outside the model. Observation recorded in design/C43.md: the bound is protected twice (credit gating in allowNextRequest and the seq > demandUpTo test in emitSequenced); removing only the latter breaks the correspondence but no input violates the property.",
     "technique": "Lean 4 inductive invariant over all fault schedules of an executable model of both controllers + per-step differential replay of the real handlers",
 }
 TRUSTED = list(_c42.TRUSTED)
